@@ -72,13 +72,13 @@ PROPS = {
    corpus=["compile.txt"], tables=["Gen/Tables.v: builtin_idents"]),
  "C07": dict(
    corr=[("prog", "parse", 4000, 200000), ("expr", "parse", 3000, 150000), ("prog-flat", "parse", 2000, 100000), ("pipes", "parse", 1500, 75000), ("joins", "parse", 1500, 75000),
-         ("prog", "gram", 4000, 200000), ("expr", "gram", 3000, 150000), ("prog-mut", "gram", 4000, 200000), ("joins", "gram", 1500, 75000), ("bytes-rand", "gram", 3000, 150000), ("bytes-exh-3", "gram", 0, 0), ("deep", "gram", 200, 10000)],
-   oracle=[("expr", "oracle-C07", 3000, 150000), ("prog", "oracle-C07", 2000, 100000), ("prog-mut", "oracle-C07", 2000, 100000), ("joins", "oracle-C07", 1000, 50000)],
+         ("prog", "gram", 4000, 200000), ("expr", "gram", 3000, 150000), ("prog-mut", "gram", 4000, 200000), ("joins", "gram", 1500, 75000), ("bytes-rand", "gram", 3000, 150000), ("bytes-exh-3", "gram", 0, 0), ("deep", "gram", 200, 10000), ("dangle", "parse", 0, 0), ("dangle", "gram", 0, 0)],
+   oracle=[("dangle", "oracle-C07", 0, 0), ("expr", "oracle-C07", 3000, 150000), ("prog", "oracle-C07", 2000, 100000), ("prog-mut", "oracle-C07", 2000, 100000), ("joins", "oracle-C07", 1000, 50000)],
    oracle_for_stage={"parse": ["oracle-C07", "oracle-C08"]},
    corpus=["parse.txt"], tables=["Gen/Tables.v: op_prec, keywords, join_types"]),
  "C08": dict(
-   corr=[("prog-mut", "parse", 6000, 300000), ("bytes-rand", "parse", 3000, 150000), ("prog", "parse", 2000, 100000), ("bytes-exh-3", "parse", 0, 0), ("deep", "parse", 200, 10000), ("eof", "parse", 600, 15000), ("eof", "scan", 600, 15000)],
-   oracle=[("prog-mut", "oracle-C08", 6000, 300000), ("prog", "oracle-C08", 3000, 150000), ("prog-hostile", "oracle-C08", 2000, 100000), ("bytes-rand", "oracle-C08", 2000, 100000), ("eof", "oracle-C08", 600, 15000)],
+   corr=[("prog-mut", "parse", 6000, 300000), ("bytes-rand", "parse", 3000, 150000), ("prog", "parse", 2000, 100000), ("bytes-exh-3", "parse", 0, 0), ("deep", "parse", 200, 10000), ("eof", "parse", 600, 15000), ("eof", "scan", 600, 15000), ("dangle", "parse", 0, 0)],
+   oracle=[("dangle", "oracle-C08", 0, 0), ("prog-mut", "oracle-C08", 6000, 300000), ("prog", "oracle-C08", 3000, 150000), ("prog-hostile", "oracle-C08", 2000, 100000), ("bytes-rand", "oracle-C08", 2000, 100000), ("eof", "oracle-C08", 600, 15000)],
    oracle_for_stage={"parse": ["oracle-C08", "oracle-C07"]},
    corpus=["parse.txt"], tables=["Gen/Tables.v: op_prec"]),
  "C10": dict(
